@@ -234,6 +234,7 @@ func c07(c *Ctx) {
 	defer os.RemoveAll(dir)
 	db, gh := c07Genesis(dir)
 	defer db.Close()
+	c07Merge(c)
 	w := &c07World{}
 	newWorld := func() {
 		w.am = account.NewManager(gh, db)
